@@ -325,8 +325,12 @@ func (fv *FV) contractCall(name string, call *ast.CallExpr, cx *Cx) (TV, bool) {
 			}
 			fv.n++
 			q := sym(fmt.Sprintf("%s!q%d", n, fv.n))
-			env[n] = TV{T: q, Ty: ty, S: SInt}
-			binds = append(binds, fmt.Sprintf("(%s Int)", q))
+			qs := SInt
+			if ty != nil {
+				qs = u.sortOf(ty)
+			}
+			env[n] = TV{T: q, Ty: ty, S: qs}
+			binds = append(binds, fmt.Sprintf("(%s %s)", q, qs))
 		}
 		body := fv.expr(call.Args[len(call.Args)-1], c2).T
 		if len(trig) > 0 {
@@ -398,6 +402,36 @@ func (fv *FV) contractCall(name string, call *ast.CallExpr, cx *Cx) (TV, bool) {
 		}
 		val := fv.get(cx.st, "MV!"+cell, arr(SInt, arr(ks, vs)))
 		return TV{T: sel(sel(val, m.T), k.T), S: vs, Ty: mt.Elem()}, true
+	case "frameExcept":
+		// frameExcept("Cell.name", ref...): every object other than the listed references is as at function entry
+		lit, ok := call.Args[0].(*ast.BasicLit)
+		if !ok {
+			panic(refuse("frameExcept: first argument must be a cell name string"))
+		}
+		cell := fv.cellForField(strings.Trim(lit.Value, "\""))
+		cur := fv.get(cx.st, cell, "")
+		old := fv.get(fv.entry, cell, "")
+		var ne []string
+		for _, a := range call.Args[1:] {
+			ne = append(ne, not(eq("r!f", fv.expr(a, cx).T)))
+		}
+		return b(fmt.Sprintf("(forall ((r!f Int)) (! (=> %s (= %s %s)) :pattern (%s)))", and(ne...), sel(cur, "r!f"), sel(old, "r!f"), sel(cur, "r!f")))
+	case "as":
+		// as(x, TypeName): x viewed as *TypeName (for error/interface values known to hold that type)
+		x := fv.expr(call.Args[0], cx)
+		tn := call.Args[1].(*ast.Ident).Name
+		obj, ok := u.Pkg.Types.Scope().Lookup(tn).(*types.TypeName)
+		if !ok {
+			panic(refuse("as: unknown type %s", tn))
+		}
+		return TV{T: x.T, S: SInt, Ty: types.NewPointer(obj.Type())}, true
+	case "idx":
+		// idx(): index of the enclosing range loop (in a loop invariant)
+		if cx.rng == nil {
+			panic(refuse("idx() outside the invariant of a range loop"))
+		}
+		_, ic := fv.rangeCells(cx.rng)
+		return TV{T: fv.get(cx.st, ic, SInt), S: SInt, Ty: tInt}, true
 	case "emptyset":
 		return TV{T: "((as const (Array Int Bool)) false)", S: arr(SInt, SBool)}, true
 	case "setof":
@@ -559,6 +593,10 @@ func (fv *FV) resolveCallee(call *ast.CallExpr, cx *Cx) (*CalleeSpec, []ast.Expr
 				if es, ok := u.TrustedExt[key]; ok {
 					return fv.specForExt(es, u.Info.Uses[f.Sel].(*types.Func)), call.Args, nil
 				}
+				if u.OpaqueExternals {
+					u.Assumptions["user code: external call "+key+" treated as opaque (touches no parser state)"] = true
+					return fv.specForExt(&ExtSpec{Key: key}, u.Info.Uses[f.Sel].(*types.Func)), call.Args, nil
+				}
 				panic(refuse("external function %s has no assumed contract", key))
 			}
 		}
@@ -580,6 +618,10 @@ func (fv *FV) resolveCallee(call *ast.CallExpr, cx *Cx) (*CalleeSpec, []ast.Expr
 			if es, ok := u.TrustedExt[key]; ok {
 				cs := fv.specForExt(es, fn)
 				return cs, call.Args, f.X
+			}
+			if u.OpaqueExternals {
+				u.Assumptions["user code: external call "+key+" treated as opaque (touches no parser state)"] = true
+				return fv.specForExt(&ExtSpec{Key: key}, fn), call.Args, f.X
 			}
 			panic(refuse("external method %s has no assumed contract", key))
 		}
@@ -695,7 +737,9 @@ func (fv *FV) contractedCall(call *ast.CallExpr, cx *Cx) []TV {
 		}
 		v := fv.expr(a, cx)
 		if pi+i < len(cs.Params) {
-			v.Ty = cs.ParamTys[pi+i]
+			if _, isTP := cs.ParamTys[pi+i].(*types.TypeParam); !isTP {
+				v.Ty = cs.ParamTys[pi+i]
+			}
 			env[cs.Params[pi+i]] = v
 		}
 	}
